@@ -203,6 +203,21 @@ theorem agile_segments_partition (N : Nat) :
     unfold decryptPackageSegs
     rw [if_pos hL]
 
+/-- *wrong or damaged input returns an error, never a crash* (standard-encryption descriptor): for
+every EncryptionInfo content and every EncryptedPackage length, each slice expression of
+`standardDecrypt` / `standardEncryptionVerifier` (header-size field, header block and its fields,
+verifier blob: salt, encrypted verifier, hash size, encrypted hash `[40:60]` for RC4 / `[40:72]` for
+AES, `encryptedPackageBuf[8:]`) is in range once the guards in front of it have passed — the model's
+panic outcome is unreachable. Relies on the per-algorithm guard table `{RC4: 60, AES: 72}` covering
+the last slice of `standardEncryptionVerifier` (both are regenerated facts). -/
+theorem standard_guards_no_panic (info : List Nat) (pkgLen : Nat) :
+    standardGuards info pkgLen ≠ .panic ∧
+    (∀ alg, verifierEnd alg ≤ verifierMin alg) := by
+  refine ⟨standardGuards_no_panic info pkgLen, ?_⟩
+  intro alg
+  unfold verifierEnd verifierMin
+  split <;> decide
+
 /-- *every password the API accepts … any Unicode text*: the UTF-16LE conversion applied to the
 password before key derivation (BMP code units, surrogate pairs above U+FFFF) is injective on
 Unicode scalar sequences, so two different passwords never feed the same bytes into the hash. -/
